@@ -7,7 +7,7 @@ LEVEL = "exploration"
 RULE = ("tank family R-p1-J1-[tank link]-T(-p3-J2): tank shape {cylinder, volume curve wider than the limits, volume curve ending "
         "at max_level} x init {mid, near min, near max} x tank link {pipe, reversed pipe, CV into tank, CV out of tank, pump into "
         "tank} x second tank link {no, yes} x demand pattern {fill, drain, fill-then-drain, saw-tooth} x hydraulic step {1h, 15min} x "
-        "tank leak {no, yes}, fully crossed (thorough adds diameters, limits and a second tank); run + geometry edit (curve points in place, new curve, diameter) + reset + second run (judged); report 'ALL'. oracle on consecutive "
+        "tank leak {no, yes}, fully crossed (thorough adds diameters, limits and a second tank); a second tank joined directly to the first by a pipe, registered before / after it; run + geometry edit (curve points in place, new curve, diameter) + reset + second run (judged); report 'ALL'. oracle on consecutive "
         "solved steps: V(l_{i+1})-V(l_i) = demand_i*dt; level_0 = init; limits with 2 s of flow slack; at min no discharge, at max no "
         "filling. non-trivial: the tank level changed by > 1 cm and (reached a limit or reversed direction)")
 
@@ -47,8 +47,18 @@ def tank_spec(shape, init, tlink, second, pat, hyd, leak, diam=5.0, lim=(1.0, 5.
             # and then idles (net inflow exactly zero) while the first tank keeps moving
             t2 = T("T2", elev=30.5, init=3.6, mn=0.5, mx=4.0, diam=4.0)
             t2["vcurve"] = [[0.0, 0.0], [1.0, 8.0], [3.0, 40.0], [5.0, 60.0]]
-        nodes.append(t2)
-        links.append(P("p4", "J1", "T2", L=150.0, D=0.2))
+        if two in ("direct_after", "direct_before"):
+            # a second tank joined DIRECTLY to the first one by a plain pipe (no junction in between), higher up so that it
+            # drains into it; registered after / before the first tank
+            t2 = T("T2", elev=33.0, init=3.0, mn=0.5, mx=5.0, diam=6.0)
+            if two == "direct_before":
+                nodes.insert(nodes.index(t), t2)
+            else:
+                nodes.append(t2)
+            links.append(P("p4", "T2", "T", L=150.0, D=0.15))
+        else:
+            nodes.append(t2)
+            links.append(P("p4", "J1", "T2", L=150.0, D=0.2))
     s = spec(nodes, links, OPTS(dur=10 * 3600, hyd=hyd, pat=3600, rep="ALL"), patterns={"D": PATTERNS[pat]})
     s["id"] = {"shape": shape, "init": init, "tlink": tlink, "second": second, "pat": pat, "hyd": hyd, "leak": leak,
                "diam": diam, "lim": list(lim), "two": two}
@@ -63,6 +73,9 @@ def cases(tier):
         out.append(tank_spec(shape, init, tlink, second, pat, hyd, leak))
     for shape, init, tlink, pat in itertools.product(("cyl", "vc_wide"), ("mid", "min", "max"), ("pipe", "rpipe"), sorted(PATTERNS)):
         out.append(tank_spec(shape, init, tlink, False, pat, 3600, False, two="vc"))
+        for two in ("direct_after", "direct_before"):
+            out.append(tank_spec(shape, init, tlink, False, pat, 3600, False, two=two))
+            out.append(tank_spec(shape, init, tlink, True, pat, 3600, False, two=two))
     # user controls in the same hydraulic steps as the tank events: an unrelated thin pipe px toggled 50 minutes into every
     # hour by time controls of low / default / high priority (the tank's own limit handling must not depend on them)
     for shape, init, tlink, pat, prio in itertools.product(("cyl", "vc_wide") if tier == "quick" else ("cyl", "vc_wide", "vc_tight"),
